@@ -263,12 +263,15 @@ def handleC11 (op : String) (args : Array Json) : Option Json := do
     let snake ← jStr? (arg args 5)
     let single ← jBool? (arg args 6)
     some (bfieldJ (guessForeign fs bn (candidateNames base pk snake single)))
+  | "assoc.facts" =>
+    -- regenerated: is the repair of F35 present in the tree under test?
+    some (Json.mkObj [("once", Json.bool Gen.assocCondsOnce), ("embStoresArgs", Json.bool Gen.assocEmbStoresArgs)])
   | "assoc.conds" =>
     -- ["assoc.conds", embDepth, [conds], placeholders] -> {n: conditions reaching preload, ok: Find(dest, conds…) well-formed}
     let d ← jNat? (arg args 1)
     let cs ← (← jArr? (arg args 2)).toList.mapM jStr?
     let k ← jNat? (arg args 3)
-    let r := assocCondsReaching d cs
+    let r := assocCondsCurrent d cs
     some (Json.mkObj [("n", natJ r.length), ("ok", Json.bool (inlineWellFormed k r))])
   | "join.on" =>
     let refs ← (← jArr? (arg args 1)).toList.mapM parseJoinRef
